@@ -176,6 +176,10 @@ DoParams(S, a) == Ok(S, a, [S EXCEPT !.par[a.c] = [send |-> a.send, recv |-> a.r
 
 DoTick(S, a) == Ok(S, a, [S EXCEPT !.ep = @ + 1])
 
+\* genesis export of the ibc and transfer modules of chain a.c, wipe of their stores, import of the export (C44):
+\* the identity on everything this specification talks about
+DoExportImport(S, a) == Ok(S, a, S)
+
 (***************************************************************************)
 (* Transfer: MsgTransfer (proto "v1"), MsgTransfer with UseAliasing        *)
 (* ("alias") and MsgSendPacket carrying a transfer payload ("v2"), on the  *)
@@ -277,6 +281,7 @@ Step(S, a) ==
       [] a.a = "BankSend" -> DoBankSend(S, a)
       [] a.a = "Params"   -> DoParams(S, a)
       [] a.a = "Tick"     -> DoTick(S, a)
+      [] a.a = "ExportImport" -> DoExportImport(S, a)
       [] a.a = "Transfer" -> DoTransfer(S, a)
       [] a.a = "Recv"     -> DoRecv(S, a)
       [] a.a = "Ack"      -> DoAck(S, a)
